@@ -37,6 +37,8 @@ BINARIES = {
     "rt_bb4k": _rt("BoundedBlocking", 4096, 4096),
     "rt_ub": _rt("UnboundedBlocking", 4096, 65536),
     "rt_ub_asan": dict(_rt("UnboundedBlocking", 4096, 65536), flavour="asan"),
+    "rt_ub_tsan": dict(_rt("UnboundedBlocking", 4096, 65536), flavour="tsan"),
+    "rt_bd_tsan": dict(_rt("BoundedDropping", 4096, 4096), flavour="tsan"),
     "qtsan": {"sources": ["harness/queue_tsan.cpp", "engine/rc_driver.cpp"], "flavour": "tsan", "libs": RC_LIBS, "harness": "qtsan"},
     "tsfmt_fuzz": _fuzzbin("harness/tsfmt.cpp"),
     "pattern_fuzz": _fuzzbin("harness/pattern.cpp"),
@@ -163,7 +165,7 @@ PROPERTIES = {
                             "full queue OR a burst ran between queue reads / decoded records / processed events); distinct = FNV hash "
                             "of the rendered case (config + op list + counters)"),
         "assumptions": ["statements <= queue capacity on blocking queues (documented)"],
-        "jobs": _simjobs("C03", ["sim_bb256", "sim_bb1k", "sim_bb4k", "sim_ub", "sim_ubs"]) + [_rtjob("rt_bb4k", "C03"), _rtjob("rt_ub", "C03")],
+        "jobs": _simjobs("C03", ["sim_bb256", "sim_bb1k", "sim_bb4k", "sim_ub", "sim_ubs"]) + [_rtjob("rt_bb4k", "C03"), _rtjob("rt_ub", "C03"), _rtjob("rt_ub_tsan", "C03", quick_cases=40)],
     },
     "C05": {
         "technique": "stateful property-based testing with virtual time: stalls inside the timestamp read, ticks around the grace period, yield-point bursts; oracle = non-decreasing sink timestamps under the stated precondition",
@@ -188,7 +190,7 @@ PROPERTIES = {
         "rule": SIM_CASE + ("non-trivial = >= 2 threads logged AND a flush was issued while statements of OTHER threads whose calls had "
                             "completed were required to be written by it"),
         "assumptions": ["flush_log is never called from the backend thread (documented)"],
-        "jobs": _simjobs("C06", ["sim_bb1k", "sim_ub", "sim_bd1k", "sim_ud"]) + [_rtjob("rt_bb4k", "C06"), _rtjob("rt_bd4k", "C06")],
+        "jobs": _simjobs("C06", ["sim_bb1k", "sim_ub", "sim_bd1k", "sim_ud"]) + [_rtjob("rt_bb4k", "C06"), _rtjob("rt_bd4k", "C06"), _rtjob("rt_ub_tsan", "C06", quick_cases=40)],
     },
     "C08": {
         "technique": "stateful property-based testing on dropping queue flavours: return value <=> delivery, reported drops == false returns, control requests never dropped",
@@ -199,7 +201,7 @@ PROPERTIES = {
         "level_note": SIM_NOTE,
         "rule": SIM_CASE + "non-trivial = >= 1 statement dropped AND >= 1 statement delivered after a drop on the same thread",
         "assumptions": ["the drop report is defined for bounded dropping queues only (code and property agree)"],
-        "jobs": _simjobs("C08", ["sim_bd256", "sim_bd1k", "sim_ud"], quick_procs=3) + [_rtjob("rt_bd4k", "C08", quick_cases=60, quick_procs=3)],
+        "jobs": _simjobs("C08", ["sim_bd256", "sim_bd1k", "sim_ud"], quick_procs=3) + [_rtjob("rt_bd4k", "C08", quick_cases=60, quick_procs=3), _rtjob("rt_bd_tsan", "C08", quick_cases=40)],
     },
     "C09": {
         "technique": "stateful property-based testing: stall-state reachability (blocked worker + empty queues + idle backend) in a harness-owned schedule, plus the queue-level quiescence probe under the memory-model simulation",
@@ -256,7 +258,7 @@ PROPERTIES = {
                  "StartThread, ExitThread, Poll with bursts at Y1..Y5); non-trivial = a removal was requested while statements of that "
                  "logger were still unwritten AND a name was re-created"),
         "assumptions": ["CsvWriter not exercised"],
-        "jobs": _simjobs("C17", ["sim_bb1k", "sim_ub", "sim_bd1k"], quick_procs=3) + [_rtjob("rt_ub_asan", "C17", quick_cases=12, quick_procs=3)],
+        "jobs": _simjobs("C17", ["sim_bb1k", "sim_ub", "sim_bd1k"], quick_procs=3) + [_rtjob("rt_ub_asan", "C17", quick_cases=12, quick_procs=3), _rtjob("rt_ub_tsan", "C17", quick_cases=40)],
     },
     "C18": {
         "technique": "stateful property-based testing of backtrace storage against a reference ring per logger (exact expected sink sequence)",
@@ -284,7 +286,7 @@ PROPERTIES = {
                  "Poll with bursts); non-trivial = a thread exited with unwritten statements OR >= 64 thread exits between two backend "
                  "idle periods OR a shrink took effect"),
         "assumptions": [],
-        "jobs": _simjobs("C20", ["sim_ub", "sim_ubs", "sim_bb1k", "sim_ud"], quick_cases=250, thorough_cases=3000, extra=None) + [_rtjob("rt_ub", "C20", quick_cases=30, quick_procs=2)],
+        "jobs": _simjobs("C20", ["sim_ub", "sim_ubs", "sim_bb1k", "sim_ud"], quick_cases=250, thorough_cases=3000, extra=None) + [_rtjob("rt_ub", "C20", quick_cases=30, quick_procs=2), _rtjob("rt_ub_tsan", "C20", quick_cases=40)],
     },
     "C01": {
         "technique": "property-based testing: randomised C++11 memory-model simulation of the real queue code vs a FIFO model + happens-before race detector",
